@@ -22,7 +22,7 @@ EXPLANATION = (
     "trial leaves the pending list only into observed or failed (typestate: every drop_pending_evaluation is followed on every "
     "path by a label or a failure mark); S6 grid search advances its index exactly once per candidate considered and "
     "resets it only when duplicates are allowed; S7 PBT's exploration writes only sampled or clipped-and-cast values. "
-    "NOT decided: that model-based candidates decode into the domain (C07 numeric clauses).")
+    "S4 also: inside one batch every pick is excluded before the next one (random picks of get_batch_configs, rounds of the greedy batch selection, one exclusion list handed on). NOT decided: that model-based candidates decode into the domain (C07 numeric clauses).")
 
 FLOOR = {"S1": 4, "S2": 5, "S3": 6, "S4": 5, "S5": 5, "S6": 7, "S7": 2}
 
